@@ -56,65 +56,29 @@ def observe(tier):
     w.close()
     files += w.files
     info["records"]["T"] = w.n
-    info["test_suite_tail"] = p.stdout.strip().splitlines()[-1:] 
-    return files, info
+    return {"judge": [("JudgeTree.tla", "JudgeTree.cfg", files), ("JudgeIds.tla", "JudgeIds.cfg", info["id_files"])],
+            "tlc": info["tlc"], "records": info["records"],
+            "explanation": "every transition of the OdmlTree reference model (all reachable worlds of the universe x all structural "
+                           "operations, success and refusal) and of the OdmlIds model replayed into the real library from a rebuilt pre-state; "
+                           "seeded histories on one evolving object graph (H); the repository's own tests under a tracing plugin (T); each "
+                           "observation judged by TLC (JudgeTree/JudgeIds) against the contract predicates in inductive form and for conformance to the reference",
+            "assumptions": ["behaviour of one operation depends only on the projected state (checked by the H-binding, not assumed)",
+                            "universe bounded as in the MC_Tree_*.cfg files"]}
 
 
-def run(pid, tier):
-    t0 = time.time()
-    files, info = observe(tier)
-    verdicts, jinfo = C.run_judges("JudgeTree.tla", "JudgeTree.cfg", files)
-    v2, j2 = C.run_judges("JudgeIds.tla", "JudgeIds.cfg", info["id_files"])
-    verdicts += v2
-    files = files + info["id_files"]
-    nv, nk, summary = C.settle(pid, verdicts, files, tier)
-    total = sum(info["records"].values())
-    samples = []
-    for f in files[:2]:
-        with open(f) as fh:
-            r = json.loads(fh.readline())
-            samples.append({"op": r["op"], "out": r["out"], "exc": r["exc"], "pre": r["pre"], "post": r["post"]})
-    cov = {"states": sum(x["states"] for x in info["tlc"]),
-           "transitions": sum(x["transitions"] for x in info["tlc"]),
-           "traces_validated_against_impl": total,
-           "samples": samples,
-           "exhaustive": True,
-           "tlc_runs": info["tlc"], "records": info["records"], "judge": jinfo,
-           "checker_cmd": jinfo["cmd"], "trusted_base": C.TRUSTED_BASE,
-           "explanation": "every transition of the OdmlTree reference model (all reachable worlds of the universe x all operations, "
-                          "success and refusal) replayed into the real library from a rebuilt pre-state; seeded histories on one evolving "
-                          "object graph; each observation judged by TLC (JudgeTree) against the contract predicates in inductive form",
-           }
-    cov.update(summary)
-    C.write_evidence(pid, tier, "model_checking", cov,
-                     ["behaviour of one operation depends only on the projected state (checked by the H-binding, not assumed)",
-                      "universe bounded as in the MC_Tree_*.cfg files"], time.time() - t0, nv)
-    print("%s: %d observations judged, %d violations, %d known-finding cases, %d divergences (%.0fs)" % (
-        pid, total, nv, nk, sum(summary["divergences"].values()), time.time() - t0))
-    return 1 if nv else 0
-
-
-def replay_file(pid, path):
-    """Re-run exactly the case stored in a replay file and re-judge it."""
+def replay_record(rec, d):
     from . import tree, ids, world
-    rec = json.load(open(path))["record"]
-    d = C.fresh_dir(os.path.join(C.BUILD, "replay_tree"))
     w = C.ObsWriter(os.path.join(d, "one"))
-    with C.quiet():
-        if "kind" in rec and "in" in rec:
-            recs = list(ids.replay({"pre": {rec["kind"]: "f" if rec["pre"].startswith("f") else rec["pre"]},
-                                    "op": rec["op"], "kind": rec["kind"], "in": rec["in"]}))
-            judge = ("JudgeIds.tla", "JudgeIds.cfg")
-        elif rec.get("src") == "model" and "hist" not in rec:
-            recs = list(tree.replay({"pre": world.core(rec["pre"]), "op": rec["op"]}))
-            judge = ("JudgeTree.tla", "JudgeTree.cfg")
-        else:
-            print("this record comes from a history or a test trace; re-run the check with the same VERIF_SEED to reproduce it")
-            return 2
+    if "kind" in rec and "in" in rec:
+        recs = list(ids.replay({"pre": {rec["kind"]: "f" if rec["pre"].startswith("f") else rec["pre"]},
+                                "op": rec["op"], "kind": rec["kind"], "in": rec["in"]}))
+        judge = ("JudgeIds.tla", "JudgeIds.cfg")
+    elif rec.get("src") == "model" and "hist" not in rec:
+        recs = list(tree.replay({"pre": world.core(rec["pre"]), "op": rec["op"]}))
+        judge = ("JudgeTree.tla", "JudgeTree.cfg")
+    else:
+        return None
     for r in recs:
         w.write(r)
     w.close()
-    verdicts, _ = C.run_judges(judge[0], judge[1], w.files)
-    nv, nk, _ = C.settle(pid, verdicts, w.files, "replay")
-    print("replayed %s: out=%s exc=%s -> %d violation(s)" % (path, recs[0]["out"], recs[0]["exc"], nv))
-    return 1 if nv else 0
+    return judge[0], judge[1], w.files, recs
